@@ -98,15 +98,19 @@ impl Instant {
 
 impl Add<Duration> for Instant {
     type Output = Instant;
+    #[track_caller]
     fn add(self, rhs: Duration) -> Instant {
-        // saturate far in the future instead of panicking on absurd simulated deadlines
+        // exactly as std: an instant that cannot be represented is a panic (at the caller's location), not a
+        // saturated value - code that adds an unchecked, configurable duration to `now()` fails here as it does
+        // on the real clock
         match self.0.checked_add(rhs) {
             Some(i) => Instant(i),
-            None => Instant(self.0 + Duration::from_secs(60 * 60 * 24 * 365 * 100)),
+            None => panic!("overflow when adding duration to instant"),
         }
     }
 }
 impl AddAssign<Duration> for Instant {
+    #[track_caller]
     fn add_assign(&mut self, rhs: Duration) {
         *self = *self + rhs;
     }
